@@ -33,3 +33,18 @@ func (s *Stream) VerifTables() (rtp, flv []VerifConsumption, rtpCount, flvCount 
 
 // VerifStatus returns the raw stream status.
 func (s *Stream) VerifStatus() int32 { return atomic.LoadInt32(&s.status) }
+
+// VerifSetMaxQLen overrides the backlog limit of one attached consumption, so that the
+// key-frame back-pressure logic can be exercised by short scripts.
+func (s *Stream) VerifSetMaxQLen(cid CID, n int) bool {
+	cs := &s.consumptions
+	if cid.Type() == FLVPacket {
+		cs = &s.flvConsumptions
+	}
+	ci, ok := cs.Load(cid)
+	if !ok {
+		return false
+	}
+	ci.(*consumption).maxQLen = n
+	return true
+}
